@@ -152,7 +152,14 @@ def execute(plan, env):
         res.keys.add(f"{name}|{'ok' if expect is not None else 'refuse'}|{int(m.sanitize)}|{int(len(m.data) == 0)}|{int(has_y)}|{relation}")
         exc = None
         try:
-            getattr(w, name)(*call_args)
+            if step % 5 == 2 and name in ("add_fixed_string", "add_fixed_encoded_string"):
+                getattr(w, name)(string=call_args[0], length=call_args[1], padded=call_args[2])
+            elif step % 5 == 2 and name in ("add_string", "add_encoded_string"):
+                getattr(w, name)(string=call_args[0])
+            elif step % 5 == 2 and name in ("add_char", "add_short", "add_three", "add_int"):
+                getattr(w, name)(number=call_args[0])
+            else:
+                getattr(w, name)(*call_args)
         except Exception as e:
             exc = type(e).__name__
         after = bytes(w.to_bytearray())
